@@ -14,7 +14,7 @@ fn groups_for(prop: &str, ctx: &Ctx) -> Vec<Box<dyn Group>> {
         "C19" => vec![Box::new(c19::Split), Box::new(c19::Msg), Box::new(c19::Dispatch::new(ctx)), Box::new(c19::InFlight)],
         "C09" => vec![Box::new(c09::Reply), Box::new(c09::Tiling), Box::new(c09::Wire)],
         "C12" => vec![Box::new(c12::Run), Box::new(c12::Serve), Box::new(c12::Hosts)],
-        "C18" => vec![Box::new(c18::Write), Box::new(c18::Replace), Box::new(c18::ReplaceSeq), Box::new(c18::ReadAll)],
+        "C18" => vec![Box::new(c18::Write), Box::new(c18::Replace), Box::new(c18::ReplaceSeq), Box::new(c18::FileRead::new()), Box::new(c18::ReadAll)],
         "C16" => vec![Box::new(c16::Ops), Box::new(c16::Present), Box::new(c16::Trace)],
         "C15" => vec![Box::new(c15::Route), Box::new(c15::Isolation), Box::new(c15::Conn), Box::new(c20::HostsTls::new())],
         "C14" => vec![Box::new(c14::Rules), Box::new(c14::NonceRewrite::new()), Box::new(c14::CspHeader), Box::new(c14::Chain)],
